@@ -40,6 +40,12 @@ func c10Combos(n int, kind func(i int) string) [][]int {
 
 var c10Disps = []string{"accept", "reject", "none"}
 
+// c10InTier: which (number of conditions, number of actions) shapes a tier enumerates.
+// quick: <=2 conditions without action, and <=1 condition with <=2 actions; thorough: <=2 x <=2.
+func c10InTier(nc, na int) bool {
+	return vr.Thorough() || na == 0 || nc <= 1
+}
+
 type c10Target struct {
 	ID  string
 	Dir PolicyDirection
@@ -141,6 +147,11 @@ func c10CheckSingle(c *vr.Report, ref *c10Ref, st c10Stmt, rp *RoutingPolicy, el
 				continue
 			}
 			c.Eval()
+			if mv {
+				c.Outcome("condition " + cd.Kind + ": holds")
+			} else {
+				c.Outcome("condition " + cd.Kind + ": does not hold")
+			}
 			iv, pan := c10EvalCond(ic, path, opts)
 			if pan != "" {
 				condOK = false
@@ -155,6 +166,18 @@ func c10CheckSingle(c *vr.Report, ref *c10Ref, st c10Stmt, rp *RoutingPolicy, el
 		return applied // the verdict and attributes below would only repeat this disagreement
 	}
 	wflat := c10Flatten(want.Out)
+	if applied && len(st.Acts) > 0 {
+		changed := c10FlatDiff(wflat, c10Flatten(el.R), nil)
+		for _, a := range st.Acts {
+			eff := "no effect on this route"
+			for _, f := range changed {
+				if c10Governing(c10Stmt{Acts: []c10Act{a}}, f) == a.class() {
+					eff = "changes the route"
+				}
+			}
+			c.Outcome("action " + a.class() + ": " + eff)
+		}
+	}
 	for _, tg := range targets {
 		c.Eval()
 		wantAccept := want.Accept
@@ -172,13 +195,14 @@ func c10CheckSingle(c *vr.Report, ref *c10Ref, st c10Stmt, rp *RoutingPolicy, el
 				tg.ID, tg.Dir, tg.Def, got != nil, wantAccept, applied, c10StmtString(st), el.R, el.E)
 			continue
 		}
+		c.Outcome(fmt.Sprintf("verdict: accept=%v decided by %s", wantAccept, want.Decided))
 		if got == nil {
 			continue
 		}
 		gflat := c10Flatten(c10Project(got))
 		for _, f := range c10FlatDiff(gflat, wflat, want.Unspec) {
 			c.Violationf("C10:attr:"+f+":"+c10Governing(st, f), cs,
-				"resulting %s differs for (%s,%s): implementation=%+v model=%+v; statement=%s route=%+v env=%+v", f, tg.ID, tg.Dir, gflat, wflat, c10StmtString(st), el.R, el.E)
+				"resulting %s differs for (%s,%s): implementation=%v model=%v; statement=%s route=%+v env=%+v", f, tg.ID, tg.Dir, gflat, wflat, c10StmtString(st), el.R, el.E)
 		}
 	}
 	return applied
@@ -306,7 +330,7 @@ func c10VerifyConstruction(t *testing.T, st []*c10Stored) {
 	for _, s := range st {
 		g, w := c10Flatten(c10Project(s.path)), c10Flatten(s.el.R)
 		if d := c10FlatDiff(g, w, nil); len(d) > 0 {
-			t.Fatalf("ENGINE-ERROR route construction: %s projects to %+v, built from %+v (fields %v)", s.el.R.Name, g, w, d)
+			t.Fatalf("ENGINE-ERROR route construction: %s projects to %v, built from %v (fields %v)", s.el.R.Name, g, w, d)
 		}
 	}
 }
@@ -314,7 +338,7 @@ func c10VerifyConstruction(t *testing.T, st []*c10Stored) {
 func TestVerif_C10_Single(t *testing.T) {
 	r := vr.Start(t, "C10", "single")
 	defer r.Finish()
-	r.Rule = "every single-statement program (<=2 conditions of distinct kinds x <=2 actions of distinct kinds x disposition, bounded by conditions+actions) built through oc config -> RoutingPolicy.Reset; on every (route, peer context) of the universe each real condition object is compared with the model, then ApplyPolicy under (direction, default) targets: verdict and projected attributes compared with the reference interpreter; non-trivial = distinct program whose statement discriminates between universe elements, or applies to all of them and carries an action"
+	r.Rule = "every single-statement program (quick: <=2 conditions without action and <=1 condition with <=2 actions; thorough: <=2 conditions x <=2 actions; distinct kinds; x disposition) built through oc config -> RoutingPolicy.Reset; on every (route, peer context) of the universe each real condition object is compared with the model, then ApplyPolicy under (direction, default) targets: verdict and projected attributes compared with the reference interpreter; non-trivial = distinct program whose statement discriminates between universe elements, or applies to all of them and carries an action"
 	ref := newC10Ref()
 	if r.ReplayPath() != "" {
 		var cs c10SingleCase
@@ -333,10 +357,9 @@ func TestVerif_C10_Single(t *testing.T) {
 	conds, acts := c10CondAtoms(), c10ActAtoms()
 	cc := c10Combos(len(conds), func(i int) string { return conds[i].Kind })
 	ac := c10Combos(len(acts), func(i int) string { return acts[i].Kind })
-	maxSum := 3 // quick: (<=2 conditions, <=1 action) and (<=1 condition, <=2 actions)
+	maxSum := 4
 	targets := c10Targets[:2]
 	if vr.Thorough() {
-		maxSum = 4
 		targets = c10Targets
 	}
 	uni := c10Universe()
@@ -344,7 +367,7 @@ func TestVerif_C10_Single(t *testing.T) {
 	r.Bounds["action_atoms"] = len(acts)
 	r.Bounds["condition_combinations(<=2,distinct kinds)"] = len(cc)
 	r.Bounds["action_combinations(<=2,distinct kinds)"] = len(ac)
-	r.Bounds["max_conditions_plus_actions"] = maxSum
+	r.Bounds["program_shapes"] = map[bool]string{false: "<=2 conditions x 0 actions, <=1 condition x <=2 actions", true: "<=2 conditions x <=2 actions"}[vr.Thorough()]
 	r.Bounds["dispositions"] = 3
 	r.Bounds["universe(route x context)"] = len(uni)
 	var tn []string
@@ -369,7 +392,7 @@ func TestVerif_C10_Single(t *testing.T) {
 			}
 			for ci := range cc {
 				for ai := range ac {
-					if len(cc[ci])+len(ac[ai]) != size {
+					if len(cc[ci])+len(ac[ai]) != size || !c10InTier(len(cc[ci]), len(ac[ai])) {
 						continue
 					}
 					for _, disp := range c10Disps {
@@ -416,12 +439,6 @@ func TestVerif_C10_Single(t *testing.T) {
 							c.Outcome("program: statement discriminates universe elements")
 							c.NT(id)
 						}
-						for _, cd := range st.Conds {
-							c.Outcome("cond-kind:" + cd.Kind)
-						}
-						for _, a := range st.Acts {
-							c.Outcome("act-class:" + a.class())
-						}
 						c.Outcome("disposition:" + disp)
 						if c.WantSample() && n%50021 == 7 {
 							c.Sample(map[string]any{"statement": c10StmtString(st), "applies_to": nApplied, "of": len(stored)})
@@ -442,7 +459,7 @@ func TestVerif_C10_Single(t *testing.T) {
 	programs = 0
 	for ci := range cc {
 		for ai := range ac {
-			if len(cc[ci])+len(ac[ai]) <= maxSum {
+			if c10InTier(len(cc[ci]), len(ac[ai])) {
 				programs += 3
 			}
 		}
@@ -528,7 +545,7 @@ func c10CheckSkeleton(c *vr.Report, ref *c10Ref, prog c10Prog, rp *RoutingPolicy
 		}
 		gflat := c10Flatten(c10Project(got))
 		for _, f := range c10FlatDiff(gflat, wflat, want.Unspec) {
-			c.Violationf("C10:skeleton:attr:"+f+":"+mode, cs, "resulting %s differs for (%s,%s): implementation=%+v model=%+v; program=%s route=%s",
+			c.Violationf("C10:skeleton:attr:"+f+":"+mode, cs, "resulting %s differs for (%s,%s): implementation=%v model=%v; program=%s route=%s",
 				f, tg.ID, tg.Dir, gflat, wflat, c10ProgString(prog), s.el.R.Name)
 		}
 	}
@@ -780,7 +797,7 @@ func c10CheckAlias(c *vr.Report, ref *c10Ref, rp *RoutingPolicy, acts []c10Act, 
 	if !bytes.Equal(c10Snapshot(pa), sa) {
 		d := c10FlatDiff(c10Flatten(c10Project(pa)), fa, nil)
 		fail(fmt.Sprintf("C10:alias:peerA-copy-changed:field=%s:by=%s", strings.Join(d, "+"), cls),
-			"peer A's result changed when the policy for peer B was evaluated on the same stored route: before=%+v after=%+v", fa, c10Flatten(c10Project(pa)))
+			"peer A's result changed when the policy for peer B was evaluated on the same stored route: before=%v after=%v", fa, c10Flatten(c10Project(pa)))
 		c.Outcome("interference observed")
 	} else {
 		c.Outcome("no interference")
@@ -810,11 +827,11 @@ func c10CheckAlias(c *vr.Report, ref *c10Ref, rp *RoutingPolicy, acts []c10Act, 
 		return st
 	}
 	for _, f := range c10FlatDiff(fa, c10Flatten(ma), ua) {
-		fail("C10:attr:"+f+":"+c10Governing(chain(cs.A1), f), "peer A's %s differs from the model after import+export: implementation=%+v model=%+v", f, fa, c10Flatten(ma))
+		fail("C10:attr:"+f+":"+c10Governing(chain(cs.A1), f), "peer A's %s differs from the model after import+export: implementation=%v model=%v", f, fa, c10Flatten(ma))
 	}
 	fb := c10Flatten(c10Project(pb))
 	for _, f := range c10FlatDiff(fb, c10Flatten(mb), ub) {
-		fail("C10:attr:"+f+":"+c10Governing(chain(cs.A2), f), "peer B's %s differs from the model after import+export: implementation=%+v model=%+v", f, fb, c10Flatten(mb))
+		fail("C10:attr:"+f+":"+c10Governing(chain(cs.A2), f), "peer B's %s differs from the model after import+export: implementation=%v model=%v", f, fb, c10Flatten(mb))
 	}
 }
 
@@ -1416,7 +1433,7 @@ func c10CheckReadback(c *vr.Report, st c10Stmt, mode string) {
 func TestVerif_C10_Readback(t *testing.T) {
 	r := vr.Start(t, "C10", "readback")
 	defer r.Finish()
-	r.Rule = "every single-statement program of part 'single' (<=2 conditions x <=2 actions x disposition, bounded by conditions+actions): oc config -> Reset (and the incremental Add* API) -> GetDefinedSet / GetPolicy / GetStatement / ToPolicyApi compared field by field with what was configured (documented aliases identified), plus config->object->config->object->config fixed point; non-trivial = distinct program with at least one condition or action"
+	r.Rule = "every single-statement program of part 'single' (same shapes per tier): oc config -> Reset (and the incremental Add* API) -> GetDefinedSet / GetPolicy / GetStatement / ToPolicyApi compared field by field with what was configured (documented aliases identified), plus config->object->config->object->config fixed point; non-trivial = distinct program with at least one condition or action"
 	if r.ReplayPath() != "" {
 		var cs c10ReadbackCase
 		if err := r.LoadReplay(&cs); err != nil {
@@ -1429,13 +1446,10 @@ func TestVerif_C10_Readback(t *testing.T) {
 	conds, acts := c10CondAtoms(), c10ActAtoms()
 	cc := c10Combos(len(conds), func(i int) string { return conds[i].Kind })
 	ac := c10Combos(len(acts), func(i int) string { return acts[i].Kind })
-	maxSum := 3
-	if vr.Thorough() {
-		maxSum = 4
-	}
+	maxSum := 4
 	r.Bounds["condition_atoms"] = len(conds)
 	r.Bounds["action_atoms"] = len(acts)
-	r.Bounds["max_conditions_plus_actions"] = maxSum
+	r.Bounds["program_shapes"] = map[bool]string{false: "<=2 conditions x 0 actions, <=1 condition x <=2 actions", true: "<=2 conditions x <=2 actions"}[vr.Thorough()]
 	r.Bounds["dispositions"] = 3
 	r.Bounds["build_modes"] = []string{"reset", "incremental(<=1 condition,<=1 action)"}
 	W := vr.Workers()
@@ -1448,7 +1462,7 @@ func TestVerif_C10_Readback(t *testing.T) {
 			}
 			for ci := range cc {
 				for ai := range ac {
-					if len(cc[ci])+len(ac[ai]) != size {
+					if len(cc[ci])+len(ac[ai]) != size || !c10InTier(len(cc[ci]), len(ac[ai])) {
 						continue
 					}
 					for _, disp := range c10Disps {
